@@ -523,70 +523,79 @@ func ruleVD7(c *Ctx) {
 	}
 	fn := c.Name(sp)
 	// eligibility constants
-	cs := c.fieldConsts(sp, "State")
+	unit := c.unitOf(sp)
+	cs := map[string]bool{}
+	for _, g := range unit {
+		for k := range c.fieldConsts(g, "State") {
+			cs[k] = true
+		}
+	}
 	c.check(sameSet(cs, "done", "canceled"), fn, "eligible-states", c.FnPos(sp), "task eligibility compares State with exactly {done, canceled}",
 		"task eligibility compares State with "+setString(cs)+", the property says exactly {canceled, done}")
 	// eligibility insertion is guarded by State in {done,canceled} (an equality edge) and !IsEpic
 	nEl := 0
 	var eligibleMap, epicMap ssa.Value
-	eachInstr(sp, func(r instrRef) {
-		mu, ok := r.In.(*ssa.MapUpdate)
-		if !ok {
-			return
-		}
-		// maps of struct{}: eligibility sets
-		if mu.Value.Type().String() != "struct{}" {
-			return
-		}
-		stateEq := edgesWhere(sp, func(a Atom, holds bool) bool {
-			if a.Kind != "const" || !holds {
-				return false
+	for _, g := range unit {
+		eachInstr(g, func(r instrRef) {
+			mu, ok := r.In.(*ssa.MapUpdate)
+			if !ok {
+				return
 			}
-			_, n, ok := fieldLoad(a.X)
-			return ok && n == "State"
+			// maps of struct{}: eligibility sets
+			if mu.Value.Type().String() != "struct{}" {
+				return
+			}
+			stateEq := edgesWhere(g, func(a Atom, holds bool) bool {
+				if a.Kind != "const" || !holds {
+					return false
+				}
+				_, n, ok := fieldLoad(a.X)
+				return ok && n == "State"
+			})
+			if mustPassEdges(g, r.Blk, stateEq) {
+				nEl++
+				eligibleMap = mu.Map
+				notEpic := edgesWhere(g, func(a Atom, holds bool) bool {
+					if a.Kind != "bool" || holds {
+						return false
+					}
+					_, n, ok := fieldLoad(a.X)
+					return ok && n == "IsEpic"
+				})
+				c.check(mustPassEdges(g, r.Blk, notEpic), fn, "eligible-task-insert", c.Pos(mu.Pos()), "a task becomes eligible only on State==done|canceled and !IsEpic", "task eligibility is not confined to non-epics")
+			} else {
+				epicMap = mu.Map
+				// epic eligibility: on remaining==0 edge and IsEpic
+				zero := edgesWhere(g, func(a Atom, holds bool) bool {
+					if a.Kind != "const" || !holds || a.C.Value == nil || a.C.Value.Kind() != constant.Int {
+						return false
+					}
+					v, _ := constant.Int64Val(a.C.Value)
+					if v != 0 {
+						return false
+					}
+					_, isLookup := resolve(a.X).(*ssa.Lookup)
+					return isLookup
+				})
+				isEp := edgesWhere(g, func(a Atom, holds bool) bool {
+					if a.Kind != "bool" || !holds {
+						return false
+					}
+					_, n, ok := fieldLoad(a.X)
+					return ok && n == "IsEpic"
+				})
+				c.check(mustPassEdges(g, r.Blk, zero) && mustPassEdges(g, r.Blk, isEp), fn, "eligible-epic-insert", c.Pos(mu.Pos()),
+					"an epic becomes eligible only on the remainingChildren[id]==0 edge", "epic eligibility is not confined to the edge where no unpruned child remains: an epic that still has a child can be pruned")
+			}
 		})
-		if mustPassEdges(sp, r.Blk, stateEq) {
-			nEl++
-			eligibleMap = mu.Map
-			notEpic := edgesWhere(sp, func(a Atom, holds bool) bool {
-				if a.Kind != "bool" || holds {
-					return false
-				}
-				_, n, ok := fieldLoad(a.X)
-				return ok && n == "IsEpic"
-			})
-			c.check(mustPassEdges(sp, r.Blk, notEpic), fn, "eligible-task-insert", c.Pos(mu.Pos()), "a task becomes eligible only on State==done|canceled and !IsEpic", "task eligibility is not confined to non-epics")
-		} else {
-			epicMap = mu.Map
-			// epic eligibility: on remaining==0 edge and IsEpic
-			zero := edgesWhere(sp, func(a Atom, holds bool) bool {
-				if a.Kind != "const" || !holds || a.C.Value == nil || a.C.Value.Kind() != constant.Int {
-					return false
-				}
-				v, _ := constant.Int64Val(a.C.Value)
-				if v != 0 {
-					return false
-				}
-				_, isLookup := resolve(a.X).(*ssa.Lookup)
-				return isLookup
-			})
-			isEp := edgesWhere(sp, func(a Atom, holds bool) bool {
-				if a.Kind != "bool" || !holds {
-					return false
-				}
-				_, n, ok := fieldLoad(a.X)
-				return ok && n == "IsEpic"
-			})
-			c.check(mustPassEdges(sp, r.Blk, zero) && mustPassEdges(sp, r.Blk, isEp), fn, "eligible-epic-insert", c.Pos(mu.Pos()),
-				"an epic becomes eligible only on the remainingChildren[id]==0 edge", "epic eligibility is not confined to the edge where no unpruned child remains: an epic that still has a child can be pruned")
-		}
-	})
+	}
 	if nEl == 0 {
 		c.bad(fn, "eligible-task-insert", c.FnPos(sp), "no eligibility insertion guarded by a State comparison found")
 	}
 	// counter increment: remaining[task.EpicID]++ for every non-eligible non-epic child: guarded only by !IsEpic, not-eligible lookup, EpicID != ""
 	incOK := false
-	isEligibleMap := func(v ssa.Value) bool {
+	var isEligibleMap func(v ssa.Value) bool
+	isEligibleMap = func(v ssa.Value) bool {
 		if eligibleMap == nil {
 			return false
 		}
@@ -594,13 +603,25 @@ func ruleVD7(c *Ctx) {
 		if rv == resolve(eligibleMap) {
 			return true
 		}
+		// the set handed back by the helper that fills it (closedTaskIDs())
+		if cl, ok := rv.(*ssa.Call); ok {
+			if cal := cl.Call.StaticCallee(); cal != nil && cal.Blocks != nil && c.InModule(cal) && cal.Signature.Results().Len() == 1 {
+				rets := returnsOf(cal)
+				for _, r := range rets {
+					if resolve(returnedValue(r, 0)) != resolve(eligibleMap) {
+						return false
+					}
+				}
+				return len(rets) > 0
+			}
+		}
 		if prm, ok := rv.(*ssa.Parameter); ok {
 			args := c.argValues(prm.Parent(), paramIndex(prm))
 			if len(args) == 0 {
 				return false
 			}
 			for _, a := range args {
-				if resolve(a) != resolve(eligibleMap) {
+				if !isEligibleMap(a) {
 					return false
 				}
 			}
